@@ -33,6 +33,7 @@ package bpmn
 //@   prop C03 C05
 //@   modifies fresh elems([]int)
 //@   ensures [count] evlen == old(evlen) + len(awaitingActions)
+//@   ensures [only-sends] unchangedKind(Call) && unchangedKind(Trace) && unchangedKind(Spawn)
 //@   ensures [to-each-in-order] forall p int :: old(evlen) <= p && p < evlen ==>
 //@             isSend(ev(p)) && evch(ev(p)) == awaitingActions[p - old(evlen)]
 //@   ensures [share] forall p int :: old(evlen) <= p && p < evlen && shareGets(p - old(evlen), len(awaitingActions), len(sequenceFlows)) ==>
@@ -52,6 +53,7 @@ package bpmn
 //@     invariant preserved("elems([]int)")
 //@   loop 2 range awaitingActions
 //@     invariant evlen == old(evlen) + i
+//@     invariant unchangedKind(Call) && unchangedKind(Trace) && unchangedKind(Spawn)
 //@     invariant forall a int :: 0 <= a && a < len(indices) ==> at(indices, a) == a
 //@     invariant forall p int :: old(evlen) <= p && p < evlen ==> isSend(ev(p)) && evch(ev(p)) == awaitingActions[p - old(evlen)]
 //@     invariant forall p int :: old(evlen) <= p && p < evlen && shareGets(p - old(evlen), len(awaitingActions), len(sequenceFlows)) ==>
@@ -718,10 +720,12 @@ package bpmn
 
 //@ func (*exclusiveGateway).run
 //@   prop C04 C07
+//@   ensures [sender-released-exactly-once-on-exit @C07] count(Call, code("tracing|ISenderHandle.Done")) == old(count(Call, code("tracing|ISenderHandle.Done"))) + 1
 //@   requires gw.wiring != nil && gw.probing != nil
 //@   recvinv gatewayProbingReport: forall a int :: off(msg.result) <= a && a < off(msg.result) + len(msg.result) ==>
 //@             0 <= at(msg.result, a) && at(msg.result, a) < len(gw.nonDefaultSequenceFlows)
 //@   loop 1 for
+//@     invariant count(Call, code("tracing|ISenderHandle.Done")) == old(count(Call, code("tracing|ISenderHandle.Done")))
 //@     cancels ctx
 //@     invariant gw.wiring != nil && gw.probing != nil && gw.wiring == old(gw.wiring) && gw.mch == old(gw.mch) && gw.probing == old(gw.probing) &&
 //@               gw.element == old(gw.element) && gw.defaultSequenceFlow == old(gw.defaultSequenceFlow) && gw.nonDefaultSequenceFlows == old(gw.nonDefaultSequenceFlows)
@@ -777,6 +781,7 @@ package bpmn
 //@         evval(ev(old(evlen) + 1)).(probeAction).sequenceFlows == gw.nonDefaultSequenceFlows &&
 //@         has(gw.probing, q.flow.Id()) && gw.probing[q.flow.Id()] == nil
 //@   loop 2 range m.result
+//@     invariant count(Call, code("tracing|ISenderHandle.Done")) == old(count(Call, code("tracing|ISenderHandle.Done")))
 //@     invariant len(sfs) == 0 && fresh(base(sfs)) && gw.wiring != nil && gw.wiring == old(gw.wiring) && gw.mch == old(gw.mch) && gw.probing == old(gw.probing) &&
 //@               gw.element == old(gw.element) && gw.defaultSequenceFlow == old(gw.defaultSequenceFlow) && gw.nonDefaultSequenceFlows == old(gw.nonDefaultSequenceFlows)
 //@     invariant evlen == athead(1, evlen) + 1 && !has(gw.probing, m.flowId)
@@ -841,6 +846,7 @@ package bpmn
 //@   prop C05
 //@   requires gw.activated != nil
 //@   modifies gw.synchronized
+//@   ensures [releases-no-sender] count(Call, code("tracing|ISenderHandle.Done")) == old(count(Call, code("tracing|ISenderHandle.Done")))
 //@   ensures [already-synchronized-does-nothing] old(gw.synchronized) ==> evlen == old(evlen) && gw.synchronized
 //@   ensures [too-few-arrivals-does-nothing] !old(gw.synchronized) && len(gw.arrived) < len(gw.awaiting) ==> evlen == old(evlen) && !gw.synchronized
 //@   ensures [fires-at-most-once] evlen <= old(evlen) + 1
@@ -860,6 +866,11 @@ package bpmn
 //@     invariant matches == joinMatches(gw, rk1) + rowCount(heap("E:id.Id", "(Array Int (Array Int Iface))")[base(gw.awaiting)], off(gw.awaiting), rk2, gw.arrived[i])
 
 // run: fork on all true flows / default / error; join bookkeeping per message.
+// Shutting the tracker down is one close of its shutdown channel.
+//@ func (*flowTracker).shutdown
+//@   prop C05 C07
+//@   emits Close(tracker.shutdownCh)
+
 //@ func (*flowTracker).activity
 //@   prop C05 C07
 //@   modifies nothing
@@ -868,11 +879,13 @@ package bpmn
 
 //@ func (*inclusiveGateway).run
 //@   prop C05 C07
+//@   ensures [sender-released-exactly-once-on-exit @C07] count(Call, code("tracing|ISenderHandle.Done")) == old(count(Call, code("tracing|ISenderHandle.Done"))) + 1
 //@   requires gw.wiring != nil && gw.flowTracker != nil
 //@   requires [the-tracker's-activity-channel-is-not-the-context's] gw.flowTracker.activityCh != ctxdone(ctx)
 //@   recvinv gatewayProbingReport: forall a int :: off(msg.result) <= a && a < off(msg.result) + len(msg.result) ==>
 //@             0 <= at(msg.result, a) && at(msg.result, a) < len(gw.nonDefaultSequenceFlows)
 //@   loop 1 for
+//@     invariant count(Call, code("tracing|ISenderHandle.Done")) == old(count(Call, code("tracing|ISenderHandle.Done")))
 //@     cancels ctx
 //@     invariant activity != ctxdone(ctx)
 //@     invariant gw.wiring != nil && gw.flowTracker != nil && gw.wiring == old(gw.wiring) && gw.mch == old(gw.mch) && gw.element == old(gw.element) &&
@@ -908,6 +921,7 @@ package bpmn
 //@         is(evval(ev(old(evlen) + 1)).(ErrorTrace).Error, InclusiveNoEffectiveSequenceFlows) &&
 //@         evval(ev(old(evlen) + 1)).(ErrorTrace).Error.(InclusiveNoEffectiveSequenceFlows).InclusiveGateway == gw.element
 //@   loop 2 range m.result
+//@     invariant count(Call, code("tracing|ISenderHandle.Done")) == old(count(Call, code("tracing|ISenderHandle.Done")))
 //@     invariant activity != ctxdone(ctx)
 //@     invariant gw.wiring != nil && gw.flowTracker != nil && gw.wiring == old(gw.wiring) && gw.mch == old(gw.mch) && gw.element == old(gw.element) &&
 //@               gw.defaultSequenceFlow == old(gw.defaultSequenceFlow) && gw.nonDefaultSequenceFlows == old(gw.nonDefaultSequenceFlows) && gw.flowTracker == old(gw.flowTracker)
@@ -1129,7 +1143,9 @@ package bpmn
 // started, and the relay's output channel handed to the asking token.
 //@ func (*harness).run
 //@   prop C10 C07
+//@   ensures [sender-released-exactly-once-on-exit @C07] count(Call, code("tracing|ISenderHandle.Done")) == old(count(Call, code("tracing|ISenderHandle.Done"))) + 1
 //@   loop 1 for
+//@     invariant count(Call, code("tracing|ISenderHandle.Done")) == old(count(Call, code("tracing|ISenderHandle.Done")))
 //@     cancels ctx
 //@     invariant node.mch == old(node.mch) && node.activity == old(node.activity)
 //@     iter ensures [activation-marks-active-asks-once-and-answers-with-the-relay]
@@ -1165,9 +1181,11 @@ package bpmn
 // arriving while the node is not activated is dropped without any effect.
 //@ func (*catchEvent).run
 //@   prop C11 C14 C07
+//@   ensures [sender-released-exactly-once-on-exit @C07] count(Call, code("tracing|ISenderHandle.Done")) == old(count(Call, code("tracing|ISenderHandle.Done"))) + 1
 //@   requires evt.wiring != nil && evt.satisfier != nil
 //@   requires cesShape(evt.satisfier) && cesDistinct(evt.satisfier) && cesNoneFull(evt.satisfier) && cesCommonBit(evt.satisfier)
 //@   loop 1 for
+//@     invariant count(Call, code("tracing|ISenderHandle.Done")) == old(count(Call, code("tracing|ISenderHandle.Done")))
 //@     cancels ctx
 //@     invariant evt.wiring != nil && evt.wiring == old(evt.wiring) && evt.satisfier == old(evt.satisfier) && evt.mch == old(evt.mch)
 //@     invariant cesShape(evt.satisfier) && cesDistinct(evt.satisfier) && cesNoneFull(evt.satisfier) && cesCommonBit(evt.satisfier)
@@ -1192,6 +1210,7 @@ package bpmn
 //@       ndirectTrue(code("logic|(*CatchEventSatisfier).Satisfy")) > old(ndirectTrue(code("logic|(*CatchEventSatisfier).Satisfy"))) ==>
 //@         !evt.activated && len(evt.awaitingActions) == 0 && count(Send, flowAction) == old(count(Send, flowAction)) + old(len(evt.awaitingActions))
 //@   loop 2 range awaitingActions
+//@     invariant count(Call, code("tracing|ISenderHandle.Done")) == old(count(Call, code("tracing|ISenderHandle.Done")))
 //@     invariant evt.wiring != nil && evt.wiring == old(evt.wiring) && evt.satisfier == old(evt.satisfier) && evt.mch == old(evt.mch)
 //@     invariant cesShape(evt.satisfier) && cesDistinct(evt.satisfier) && cesNoneFull(evt.satisfier) && cesCommonBit(evt.satisfier)
 //@     invariant count(Send, flowAction) == athead(1, count(Send, flowAction)) + rk2 && evt.activated && evt.awaitingActions == athead(1, evt.awaitingActions)
@@ -1210,8 +1229,10 @@ package bpmn
 // and the shared transformer below.
 //@ func (*eventBasedGateway).run
 //@   prop C06 C07
+//@   ensures [sender-released-exactly-once-on-exit @C07] count(Call, code("tracing|ISenderHandle.Done")) == old(count(Call, code("tracing|ISenderHandle.Done"))) + 1
 //@   requires gw.wiring != nil
 //@   loop 1 for
+//@     invariant count(Call, code("tracing|ISenderHandle.Done")) == old(count(Call, code("tracing|ISenderHandle.Done")))
 //@     cancels ctx
 //@     invariant gw.wiring != nil && gw.wiring == old(gw.wiring) && gw.mch == old(gw.mch)
 //@     iter ensures [an-activation-answers-once-with-all-outgoing-flows]
@@ -1221,6 +1242,7 @@ package bpmn
 //@         fncode(evval(ev(evlen - 1)).(flowAction).actionTransformer) == code("(*eventBasedGateway).run$2") &&
 //@         fncode(evval(ev(evlen - 1)).(flowAction).terminate) == code("(*eventBasedGateway).run$1")
 //@   loop 2 range sequences
+//@     invariant count(Call, code("tracing|ISenderHandle.Done")) == old(count(Call, code("tracing|ISenderHandle.Done")))
 //@     invariant gw.wiring != nil && gw.wiring == old(gw.wiring) && gw.mch == old(gw.mch) && first == 0
 //@     invariant terminationChannels != nil && fresh(terminationChannels)
 //@     invariant forall k schema.IdRef :: has(terminationChannels, k) ==> fresh(terminationChannels[k]) && terminationChannels[k] != nil && terminationChannels[k] <= alloc
@@ -1417,10 +1439,13 @@ package bpmn
 //@ func (*startEvent).flow
 //@   prop C01 C11
 //@   flag countcalls
+//@   ensures [releases-no-sender] count(Call, code("tracing|ISenderHandle.Done")) == old(count(Call, code("tracing|ISenderHandle.Done")))
 //@ func (*startEvent).run
 //@   prop C07 C14 C11 C01
+//@   ensures [sender-released-exactly-once-on-exit @C07] count(Call, code("tracing|ISenderHandle.Done")) == old(count(Call, code("tracing|ISenderHandle.Done"))) + 1
 //@   requires evt.satisfier != nil && cesShape(evt.satisfier) && cesDistinct(evt.satisfier) && cesNoneFull(evt.satisfier) && cesCommonBit(evt.satisfier)
 //@   loop 1 for
+//@     invariant count(Call, code("tracing|ISenderHandle.Done")) == old(count(Call, code("tracing|ISenderHandle.Done")))
 //@     cancels ctx
 //@     invariant evt.satisfier == old(evt.satisfier) && cesShape(evt.satisfier) && cesDistinct(evt.satisfier) && cesNoneFull(evt.satisfier) && cesCommonBit(evt.satisfier)
 //@     invariant evt.mch == old(evt.mch)
@@ -1445,16 +1470,21 @@ package bpmn
 //@         (old(evt.activated) ==> count(Send, completeAction) == old(count(Send, completeAction)) + 1 && count(Send, flowAction) == old(count(Send, flowAction)))
 //@ func (*endEvent).run
 //@   prop C07
+//@   ensures [sender-released-exactly-once-on-exit @C07] count(Call, code("tracing|ISenderHandle.Done")) == old(count(Call, code("tracing|ISenderHandle.Done"))) + 1
 //@   loop 1 for
+//@     invariant count(Call, code("tracing|ISenderHandle.Done")) == old(count(Call, code("tracing|ISenderHandle.Done")))
 //@     cancels ctx
 // The throw event's step is the start event's, with the throw satisfier.
 //@ func (*throwEvent).flow
 //@   prop C01 C11
 //@   flag countcalls
+//@   ensures [releases-no-sender] count(Call, code("tracing|ISenderHandle.Done")) == old(count(Call, code("tracing|ISenderHandle.Done")))
 //@ func (*throwEvent).run
 //@   prop C07 C14 C11 C01
+//@   ensures [sender-released-exactly-once-on-exit @C07] count(Call, code("tracing|ISenderHandle.Done")) == old(count(Call, code("tracing|ISenderHandle.Done"))) + 1
 //@   requires evt.satisfier != nil && tesShape(evt.satisfier) && tesDistinct(evt.satisfier) && tesNoneFull(evt.satisfier) && tesCommonBit(evt.satisfier)
 //@   loop 1 for
+//@     invariant count(Call, code("tracing|ISenderHandle.Done")) == old(count(Call, code("tracing|ISenderHandle.Done")))
 //@     cancels ctx
 //@     invariant evt.satisfier == old(evt.satisfier) && tesShape(evt.satisfier) && tesDistinct(evt.satisfier) && tesNoneFull(evt.satisfier) && tesCommonBit(evt.satisfier)
 //@     invariant evt.mch == old(evt.mch)
